@@ -302,7 +302,7 @@ var propC15 = &dprop{ID: "C15", Sub: "bound", Tag: "C15",
 var propC16 = &dprop{ID: "C16", Sub: "histories", Tag: "C16",
 	Rule: "same controlled scheduler over graph-CONSTRUCTION histories: shuffled AddTask/TaskDependsOn/TaskRetries scripts with up to 3 re-adds of already known tasks at any position (same or second Task object), duplicate edges (12%), planted self edges / back edges (12%); termination within a bounded wait once everything was released, work conservation (the driver waits until exactly min(capacity, running+ready) task functions are in flight, a ready task never started shows as a stall), cycle rejection before any task starts (ErrorGraphHasCycle when the definition is otherwise error-free), DepthFirstSort validity; non-trivial = script repeats a call / plants a cycle, or a quiescent point with spare capacity was reached; distinct by (script, mode, history)",
 	Gen: func(t *rapid.T) *DagCase {
-		return genDagCase(t, dagCfg{MaxN: 7, Density: []int{20, 40, 70}, ErrPct: 4, SkipPct: 3, RetryPct: 15, Modes: allModes, CancelPct: 0, ReAdd: 3, DupPct: 12, CyclePct: 12, TwoObjPct: 30})
+		return genDagCase(t, dagCfg{MaxN: 7, Density: []int{20, 40, 70}, ErrPct: 4, SkipPct: 3, RetryPct: 15, Modes: allModes, CancelPct: 8, ReAdd: 3, DupPct: 12, CyclePct: 12, TwoObjPct: 30})
 	},
 	NT: func(c *DagCase, r *Result) bool {
 		seen := map[string]bool{}
